@@ -10,8 +10,10 @@
 //!  3. overflow refusal: values whose counts / lengths / offsets exceed their field: `Err`, or `Ok`
 //!     with an exact re-parse; anything else is `truncated-write`.
 //!
-//! Helper files: c15_tt.rs (sfnt tables), c15_cff.rs (CFF / CFF2 / DICT / INDEX / IVS),
-//! c15_stab.rs (fixture corpus and stability driver).
+//! Helper files: c15_tt.rs (primitives, head, hhea, maxp, hmtx, cvt, loca), c15_tn.rs (name, OS/2,
+//! post), c15_tg.rs (glyf), c15_tc.rs (cmap), c15_cff.rs (DICT / operands / INDEX / charset /
+//! encoding / FDSelect), c15_cffw.rs (whole CFF, CFF2, ItemVariationStore), c15_stab.rs (fixture
+//! corpus and stability cases).
 
 use super::Prop;
 use crate::rt::*;
@@ -20,8 +22,16 @@ use allsorts::error::{ParseError, WriteError};
 
 #[path = "c15_tt.rs"]
 mod tt;
+#[path = "c15_tn.rs"]
+mod tn;
+#[path = "c15_tg.rs"]
+mod tg;
+#[path = "c15_tc.rs"]
+mod tc;
 #[path = "c15_cff.rs"]
 mod cffm;
+#[path = "c15_cffw.rs"]
+mod cffw;
 #[path = "c15_stab.rs"]
 mod stab;
 
@@ -473,6 +483,67 @@ pub fn edge_len(rng: &mut Rng, max: usize) -> usize {
     v.min(max)
 }
 
+fn value_case_tt(cx: &mut Ctx, rng: &mut Rng) {
+    match rng.below(24) {
+        0 => tt::rt_small_records(cx, rng),
+        1 => tt::rt_head(cx, rng),
+        2 => tt::rt_hhea(cx, rng),
+        3 => tt::rt_maxp(cx, rng),
+        4 | 5 => tt::rt_hmtx(cx, rng),
+        6 => tt::rt_cvt(cx, rng),
+        7 | 8 => tt::rt_loca(cx, rng),
+        9 | 10 => tn::rt_name(cx, rng),
+        11 | 12 => tn::rt_name_owned(cx, rng),
+        13 | 14 => tn::rt_os2(cx, rng),
+        15 => tn::rt_post(cx, rng),
+        16 | 17 | 18 => tg::rt_glyph(cx, rng),
+        19 => tg::rt_glyf_table(cx, rng),
+        20 | 21 | 22 => tc::rt_cmap_sub(cx, rng),
+        _ => tc::rt_cmap_owned(cx, rng),
+    }
+}
+
+fn value_case_cff(cx: &mut Ctx, rng: &mut Rng) {
+    match rng.below(20) {
+        0..=3 => cffm::rt_dict(cx, rng),
+        4 | 5 => cffm::rt_operands(cx, rng),
+        6 | 7 | 8 => cffm::rt_index(cx, rng),
+        9 => cffm::rt_header(cx, rng),
+        10 | 11 => cffm::rt_charset(cx, rng),
+        12 => cffm::rt_encoding(cx, rng),
+        13 => cffm::rt_fdselect(cx, rng),
+        14 | 15 | 16 => cffw::rt_cff(cx, rng),
+        17 | 18 => cffw::rt_cff2(cx, rng),
+        _ => cffw::rt_ivs(cx, rng),
+    }
+}
+
+fn overflow_case(cx: &mut Ctx, rng: &mut Rng) {
+    match rng.below(20) {
+        0..=3 => tn::overflow_name(cx, rng),
+        4 => tn::overflow_post(cx, rng),
+        5..=7 => tg::overflow_glyph(cx, rng),
+        8 => {
+            if rng.bool() {
+                tg::overflow_glyph(cx, rng)
+            } else {
+                tg::edge_repeat_overshoot(cx, rng)
+            }
+        }
+        9 | 10 => tg::overflow_loca(cx, rng),
+        11..=14 => tc::overflow_cmap(cx, rng),
+        15 => {
+            if rng.chance(1, 4) {
+                tc::overflow_cmap_table(cx, rng)
+            } else {
+                tc::edge_cmap4_zero_segments(cx, rng)
+            }
+        }
+        16..=18 => cffm::overflow_cff_parts(cx, rng),
+        _ => cffw::overflow_ivs(cx, rng),
+    }
+}
+
 // ---------------------------------------------------------------------------------------------
 
 pub struct C15 {
@@ -528,19 +599,15 @@ impl Prop for C15 {
             _ => rng.below(100),
         };
         match pick {
-            0..=29 => tt::value_case(cx, rng),
-            30..=69 => cffm::value_case(cx, rng),
+            0..=34 => value_case_tt(cx, rng),
+            35..=69 => value_case_cff(cx, rng),
             70..=89 => {
                 self.corpus(cx);
                 let corpus = self.corpus.as_ref().unwrap();
                 stab::case(cx, rng, corpus);
             }
             _ => {
-                if rng.chance(2, 3) {
-                    tt::overflow_case(cx, rng)
-                } else {
-                    cffm::overflow_case(cx, rng)
-                }
+                overflow_case(cx, rng)
             }
         }
     }
